@@ -186,8 +186,8 @@ class E:
         return f"Entry({self.index_}, {self.sequence!r}, {self.pair})"
 
 
-def entries_of(regions: Sequence[Region], letters: str = "ACGU") -> List[E]:
-    n = max([max(r[0] + r[2] - 1, r[1]) for r in regions] + [3]) + 2
+def entries_of(regions: Sequence[Region], letters: str = "ACGU", length: Optional[int] = None) -> List[E]:
+    n = length if length is not None else max([max(r[0] + r[2] - 1, r[1]) for r in regions] + [3]) + 2
     ents = [E(i + 1, letters[i % len(letters)], 0) for i in range(n)]
     for s, e, length in regions:
         for t in range(length):
@@ -1089,16 +1089,16 @@ def isolated_fact(chk) -> Optional[str]:
     it = Interp(repo, MOD)
     it.override_ctor("Entry", E)
     problems: Dict[str, Tuple[str, str, Any, Any]] = {}
-    cases: List[List[Region]] = [list(st) for _, _, st in dense_structures(6)]
+    cases: List[Tuple[List[Region], Optional[int]]] = [(list(st), ln) for ln, _, st in dense_structures(6)]  # exact length: the first / last residue may be paired
     for k in range(0, 4):
         for pattern in itertools.product((1, 2, 3), repeat=k):
             for arcs in ([m for m in matchings(k)][:: max(1, len(matchings(k)) // 3)] if k else [()]):
-                cases.append(embed(arcs, lengths=list(pattern)))
+                cases.append((embed(arcs, lengths=list(pattern)), None))
     n = 0
     try:
-        for regs in cases:
+        for regs, exact in cases:
             n += 1
-            ents = entries_of(regs)
+            ents = entries_of(regs, length=exact)
             pairs = {e.index_: e.pair for e in ents if e.pair}
             stems = [_NS(strand5p=_NS(first=s, last=s + L - 1), strand3p=_NS(first=e - L + 1, last=e)) for s, e, L in regs]
             recv = bpseq(it, ents, {"elements": (stems, [], [], []), "__stems_entries": stems_of(regs, ents), "__regions": [tuple(r) for r in regs]})
@@ -1657,9 +1657,13 @@ def model_fact(chk) -> Optional[str]:
             w.default_solver = None
         rec = Recorder()
         recv = receiver(it, regs, rec, fcfs=True)
-        kind, val = attempt(lambda: it.call_member(recv, "convert_to_dot_bracket", w.default_solver))
+        if entry[0] == "dot_bracket":
+            kind, val = attempt(lambda: it.call_member(recv, "dot_bracket"))
+        else:
+            kind, val = attempt(lambda: it.call_member(recv, "convert_to_dot_bracket", w.default_solver))
         return kind, val, rec, w
 
+    entry = ["convert_to_dot_bracket"]
     n_models = 0
     names_follow_format = True
     try:
@@ -1668,8 +1672,11 @@ def model_fact(chk) -> Optional[str]:
             kind, val, rec, w = run(regs, None)
             if kind != "value" or rec.levels_of(val) != [0] * len(regs):
                 report("milp-empty-graph", "empty-exit", f"for the pseudoknot-free stems {show(regs)} convert_to_dot_bracket gives {val!r}, not every stem on level 0", [0] * len(regs), repr(val))
-        for regs in model_cases():
-            what = f"the stems {show(regs)} with lengths {[r[2] for r in regs]} ({relation_text(regs)})"
+        # the model is read twice: as convert_to_dot_bracket(solver) builds it, and as the entry point BpSeq.dot_bracket has it
+        # built (whatever that property passes on - a cap, another solver - is part of "the" notation of the structure)
+        for via, regs in [(v, r) for v in ("convert_to_dot_bracket", "dot_bracket") for r in model_cases()]:
+            entry[0] = via
+            what = f"the stems {show(regs)} with lengths {[r[2] for r in regs]} ({relation_text(regs)})" + (", model built through the entry point BpSeq.dot_bracket" if via == "dot_bracket" else "")
             adj = adjacency(regs)
             delta = max(len(v) for v in adj.values())
             store: Dict[str, Any] = {}
@@ -1819,6 +1826,7 @@ def model_fact(chk) -> Optional[str]:
                 k3, val3, rec3, _ = run(regs, {inv[(i, k)]: 1 for i, k in enumerate(sol)})
                 if k3 != "value" or rec3.levels_of(val3) != list(sol):
                     report("milp-readback", "readback", f"the solver's assignment {list(sol)} for {what} is read back as {rec3.levels_of(val3) if k3 == 'value' else str(val3)}", list(sol), rec3.levels_of(val3) if k3 == "value" else str(val3))
+        entry[0] = "convert_to_dot_bracket"
         # levels and stems with two-digit indices: eleven mutually crossing stems
         ladder = [(10 * (i + 1), 10 * (i + 1) + 500, 1 + i % 3) for i in range(11)]
         if not seen:
@@ -1855,7 +1863,7 @@ def model_fact(chk) -> Optional[str]:
             ("milp-readback", "complete solver assignments (the optimum, one using the top level, two-digit levels) are read back unchanged; unselected stems stay on level 0"),
             ("milp-name-format", "variable names are distinct and each is read back as the (stem, level) it was created for"),
         ):
-            chk.ok(rule, fi.where, f"evaluated on the models built for {n_models} knotted stem sets (order types of 2-4 arcs): {text}")
+            chk.ok(rule, fi.where, f"evaluated on the models built for {n_models // 2} knotted stem sets (order types of 2-4 arcs), each through convert_to_dot_bracket(solver) and through BpSeq.dot_bracket: {text}")
     return None
 
 
@@ -2188,13 +2196,28 @@ def mapping_list_fact(chk) -> Optional[str]:
     problem = None
     lengths = [3, 5, 2, 4]
     n = 0
+    # sizes the wrapper itself compares something with (a cap on the number of stems, residues ...): the stand-in structure is
+    # given just fewer and just more stems than each such constant, so that both sides of the comparison are input classes
+    thresholds = set()
+    for c in ast.walk(fi.node):
+        if isinstance(c, ast.Compare):
+            for x in [c.left] + list(c.comparators):
+                try:
+                    v = it.ev(x, __import__("sa.microeval", fromlist=["Scope"]).Scope(it._module_scope(T3)), T3) if isinstance(x, (ast.Name, ast.Constant, ast.Attribute)) else None
+                except Exception:
+                    v = None
+                if isinstance(v, int) and not isinstance(v, bool) and 1 <= v <= 5000:
+                    thresholds.add(v)
+    stem_counts = sorted({2} | {t + d for t in thresholds for d in (-1, 1)})
     try:
-        for k in range(1, 5):
+        for k, n_stems in [(k, 2) for k in range(1, 5)] + [(3, c) for c in stem_counts if c != 2]:
             strands = [("ABCD"[i], "ACGUACGU"[: lengths[i]]) for i in range(k)]
             total = sum(len(s) for _, s in strands)
             marks = "abcdefghijklmnopqrstuvwxyz"[:total]
             members = [_NS(sequence="".join(s for _, s in strands), structure=m) for m in (marks, marks.upper()[::-1])]
-            recv = it.instance(MC, attrs={}, over={"bpseq": _NS(all_dot_brackets=list(members), dot_bracket=members[0]), "strands_sequences": list(strands)}, module=T3)
+            stems = [_NS(strand5p=_NS(first=i + 1, last=i + 1), strand3p=_NS(first=2 * n_stems - i, last=2 * n_stems - i)) for i in range(n_stems)]
+            stub = _NS(all_dot_brackets=list(members), dot_bracket=members[0], fcfs=members[0], elements=(stems, [], [], []), entries=[], pairs={}, sequence=members[0].sequence)
+            recv = it.instance(MC, attrs={}, over={"bpseq": stub, "strands_sequences": list(strands)}, module=T3)
             kind, val = attempt(lambda: it.call_member(recv, "all_dot_brackets"))
             n += 1
 
@@ -2207,7 +2230,7 @@ def mapping_list_fact(chk) -> Optional[str]:
 
             want = [text_of(m.structure) for m in members]
             if kind != "value":
-                problem = problem or (site_of(fi, getattr(val, "lineno", None)), f"{MC}.all_dot_brackets {'raises ' + str(val) if kind == 'raise' else 'does not finish'} for {k} strand(s) of lengths {lengths[:k]}", want, None)
+                problem = problem or (site_of(fi, getattr(val, "lineno", None)), f"{MC}.all_dot_brackets {'raises ' + str(val) if kind == 'raise' else 'does not finish'} for {k} strand(s) of lengths {lengths[:k]} and {n_stems} stems", want, None)
             elif val != want and problem is None:
                 got = list(val) if isinstance(val, (list, tuple)) else repr(val)
                 why = ""
@@ -2216,6 +2239,8 @@ def mapping_list_fact(chk) -> Optional[str]:
                     bad = next((i for i in range(min(len(rows_g), len(rows_w))) if rows_g[i] != rows_w[i]), None)
                     if bad is not None and bad % 3 == 2:
                         why = f": strand {bad // 3 + 1} of {k} is given `{rows_g[bad]}` instead of its own slice `{rows_w[bad]}` of the notation (slices must be consecutive: each starts where the previous one ended)"
+                if isinstance(val, list) and len(val) != len(want):
+                    why = f": {len(val)} text(s) for {len(want)} members of BpSeq.all_dot_brackets, for a structure with {n_stems} stems" + (f" (the wrapper compares a size with {sorted(thresholds)})" if thresholds and n_stems > 2 else "") + " - members of the list are dropped"
                 problem = (fi.where, f"{MC}.all_dot_brackets for {k} strand(s) of lengths {lengths[:k]} is not one text per member of BpSeq.all_dot_brackets with every strand's own slice{why}", want, got)
     except NotEvaluable as ex:
         return str(ex)
